@@ -32,6 +32,8 @@ pub enum IoFault {
     InvalidData,
     Interrupted,
     UnexpectedEof,
+    /// Disk full (ENOSPC) on a write.
+    NoSpace,
 }
 
 impl IoFault {
@@ -44,6 +46,7 @@ impl IoFault {
             IoFault::InvalidData => (K::InvalidData, "sim: stream did not contain valid UTF-8"),
             IoFault::Interrupted => (K::Interrupted, "sim: interrupted system call"),
             IoFault::UnexpectedEof => (K::UnexpectedEof, "sim: terminal input exhausted"),
+            IoFault::NoSpace => (K::Other, "sim: no space left on device"),
         };
         std::io::Error::new(k, m)
     }
@@ -55,6 +58,9 @@ pub struct SimFs {
     pub files: RefCell<BTreeMap<PathBuf, Vec<u8>>>,
     /// k-th `read_*` call (0-based, counted per process since boot/restore) fails with this error.
     pub read_faults: RefCell<BTreeMap<u64, IoFault>>,
+    /// k-th `write_bytes` call (0-based, per process) fails with this error (disk full, EIO).
+    pub write_faults: RefCell<BTreeMap<u64, IoFault>>,
+    pub total_writes: Cell<u64>,
     /// Files that exist but cannot be read (by path).
     pub unreadable: RefCell<BTreeMap<PathBuf, IoFault>>,
     pub reads: Cell<u64>,
@@ -132,6 +138,12 @@ impl FileSystem for SimFs {
     }
     fn write_bytes(&self, path: &Path, contents: &[u8]) -> std::io::Result<()> {
         self.writes.set(self.writes.get() + 1);
+        let k = self.total_writes.get();
+        self.total_writes.set(k + 1);
+        if let Some(f) = self.write_faults.borrow().get(&k) {
+            self.bump("fs_write_failed");
+            return Err(f.to_error());
+        }
         // Step budget for writes: a recursive macro around \\dump would otherwise fill the
         // simulated disk with megabyte-sized format files (the counter is reset for every line).
         if self.writes.get() > 16 {
